@@ -262,6 +262,49 @@ theorem drain_spec (body : Body) (hm : MapPreserving body) (hb : NoDivert body)
   rw [hpc, List.append_nil] at this
   exact this
 
+theorem runTrap_interrupt (body : Body) (c : Nat) (e : Int) (t : TrapMap) (x : Int)
+    (h : (runTrap body c e t).2.1 = some (.interrupt (some x))) : (runTrap body c e t).1 = x := by
+  unfold runTrap at h ⊢
+  simp only at h ⊢
+  split
+  · rename_i st hd
+    simp only [hd, Option.some.injEq, Divert.interrupt.injEq] at h
+    subst h; rfl
+  · rename_i d hne
+    simp only at h
+    exact absurd h (hne (some x))
+
+/-- a run that ends in `Interrupt(Some(x))` leaves `$?` = `x` -/
+theorem drain_interrupt_exit (body : Body) (fuel : Nat) (t : TrapMap) (exit : Int)
+    (runs : List (Nat × Nat)) (x : Int)
+    (h : (drain body fuel t exit runs).divert = some (.interrupt (some x))) :
+    (drain body fuel t exit runs).exit = x := by
+  induction fuel generalizing t exit runs with
+  | zero => simp [drain] at h
+  | succ fuel ih =>
+    simp only [drain] at h ⊢
+    cases ht : (takeCaughtSignal t).2 with
+    | none => rw [ht] at h; simp at h
+    | some p =>
+      obtain ⟨k, ts⟩ := p
+      rw [ht] at h
+      simp only at h ⊢
+      cases hact : ts.action with
+      | command c =>
+        rw [hact] at h
+        simp only at h ⊢
+        cases hd : (runTrap body c exit (takeCaughtSignal t).1).2.1 with
+        | some d =>
+          rw [hd] at h
+          simp only [Option.some.injEq] at h
+          simp only
+          exact runTrap_interrupt body c exit _ x (by rw [hd, h])
+        | none =>
+          rw [hd] at h
+          exact ih _ _ _ h
+      | default => rw [hact] at h; exact ih _ _ _ h
+      | ignore => rw [hact] at h; exact ih _ _ _ h
+
 theorem runTraps_conserve (body : Body) (hm : MapPreserving body) (t : TrapMap) (exit : Int) :
     (runTrapsForCaughtSignals body false t exit).runs
         ++ pendingCommands (runTrapsForCaughtSignals body false t exit).traps = pendingCommands t
